@@ -91,4 +91,10 @@ var registry = []prop{
 		Thor:   tierCfg{Shards: 16, Scale: 8, TimeoutS: 1800},
 		Assume: []string{"ways reference located nodes or missing nodes only (a node object at exactly lon=0,lat=0 counts as not located)", "area ways are built from simple rings; multipolygon geometry itself is judged by C16, here only its presence/type", "member ways of route/multipolygon/boundary relations may or may not get a feature of their own (at most one)"},
 	},
+	{
+		ID: "C19", Pkg: "props/c19", Level: "exploration", Hang: true,
+		Quick:  tierCfg{Shards: 1, Scale: 1, TimeoutS: 400},
+		Thor:   tierCfg{Shards: 16, Scale: 10, TimeoutS: 2400},
+		Assume: []string{"the current state file always exists and timestamps strictly increase with the sequence number", "request budget 8*(ceil(log2(cur))+2) + 4*(missing files in [1,cur]) + 16 is the harness's generous reading of logarithmic plus stepped-over gaps", "queries before every state are only combined with missing prefixes of at most 2000 files (any exact search has to inspect the whole prefix then)"},
+	},
 }
